@@ -293,6 +293,47 @@ Section RT.
   Qed.
 End RT.
 
+(* F16: PrepareTxnFiles on a batch whose operations have all expired *)
+Lemma prepare_snd u ops : snd (prepare u ops) = parse_ops [] ops.
+Proof. unfold prepare. cbv zeta. destruct (p_included (parse_ops [] ops)); reflexivity. Qed.
+
+Lemma prepare_nonempty u ops :
+  p_included (parse_ops [] ops) <> [] -> prepare u ops = (prepare_files u ops (parse_ops [] ops), parse_ops [] ops).
+Proof. unfold prepare. cbv zeta. destruct (p_included (parse_ops [] ops)); [congruence | reflexivity]. Qed.
+
+Lemma parse_ops_additional_behind : forall l seen o,
+  In o (p_additional (parse_ops seen l)) ->
+  In (bq_sfx o) seen \/ exists i, In i (p_included (parse_ops seen l)) /\ bq_sfx i = bq_sfx o.
+Proof.
+  induction l as [|h r IH]; intros seen o; cbn [parse_ops]; [intros []|].
+  destruct (bq_expired h); cbn [p_included p_additional]; [apply IH|].
+  destruct (memZ (bq_sfx h) seen) eqn:Em; cbn [p_included p_additional].
+  - intros [<-|Hin]; [|apply IH; exact Hin]. left.
+    clear -Em. induction seen as [|y s IHs]; cbn [memZ In] in *; [discriminate|].
+    apply orb_true_iff in Em. destruct Em as [E|E]; [left; symmetry; apply Z.eqb_eq; exact E | right; apply IHs; exact E].
+  - intros Hin. destruct (IH _ _ Hin) as [[Hs|Hs]|(i & Hi & Hs)].
+    + right. exists h. split; [left; reflexivity | exact Hs].
+    + left. exact Hs.
+    + right. exists i. split; [right; exact Hi | exact Hs].
+Qed.
+
+(* nothing included (every operation expired) -> no file, no anchor string, nothing to read back, nothing deferred:
+   the whole batch is in the expired list *)
+Theorem prepare_all_expired L u ops :
+  let a := fst (prepare u ops) in let p := snd (prepare u ops) in
+  p_included p = [] ->
+  a = no_anchor /\ a_count a = 0 /\ get_txn_operations L a = None /\ p_additional p = [] /\ Permutation ops (p_expired p).
+Proof.
+  cbv zeta. rewrite prepare_snd. intros Hi.
+  assert (Ha : p_additional (parse_ops [] ops) = []).
+  { destruct (p_additional (parse_ops [] ops)) as [|o r] eqn:Ea; [reflexivity|].
+    destruct (parse_ops_additional_behind ops [] o) as [[]|(i & Hin & _)]; [rewrite Ea; left; reflexivity|].
+    rewrite Hi in Hin. destruct Hin. }
+  unfold prepare. cbv zeta. rewrite Hi. cbn [fst].
+  split; [reflexivity|]. split; [reflexivity|]. split; [reflexivity|]. split; [exact Ha|].
+  pose proof (parse_ops_perm ops []) as Hp. cbv zeta in Hp. rewrite Hi, Ha in Hp. exact Hp.
+Qed.
+
 (* MAIN: whatever is queued, the files written by PrepareTxnFiles read back as exactly the included
    operations - the first non-expired one per suffix - ordered create, recover, update, deactivate;
    the anchor count is their number; every queued operation is included, deferred or expired *)
@@ -307,8 +348,8 @@ Theorem roundtrip L u ops :
   NoDup (map bq_sfx (p_included p)) /\
   Permutation ops (p_included p ++ p_additional p ++ p_expired p).
 Proof.
-  intros Hu Hlim Hvalid. unfold prepare. cbn [fst snd]. set (p := parse_ops [] ops). set (inc := p_included p).
-  intros Hne.
+  intros Hu Hlim Hvalid. cbv zeta. rewrite prepare_snd. intros Hne. rewrite (prepare_nonempty u ops Hne).
+  unfold prepare_files. cbn [fst snd]. set (p := parse_ops [] ops) in *. set (inc := p_included p) in *.
   destruct (parse_ops_included ops []) as [Hnd Hin]. fold p in Hnd, Hin. fold inc in Hnd, Hin.
   split; [|split; [reflexivity | split; [exact Hnd | apply parse_ops_perm]]].
   assert (Hsub : forall t o, In o (of_type t inc) -> In o inc).
@@ -339,5 +380,5 @@ Proof.
     assert (Hty : forall o, In o inc -> bq_ty o = Deactivate) by (intros o Ho; rewrite <- Hde_all in Ho; eapply of_type_ty; exact Ho).
     unfold of_type. repeat split; apply filter_none; intros o Ho; rewrite (Hty o Ho); reflexivity.
   - apply Permutation_length. apply of_type_partition.
-  - destruct inc; [congruence | cbn; lia].
+  - clearbody inc. destruct inc; [congruence | cbn; lia].
 Qed.
